@@ -299,18 +299,19 @@ Definition split_list (b : bytes) : option (bytes * bytes) :=
   | _ => None
   end.
 
-(* CountValues; an error counts as 0 values (decodeNode ignores the error) *)
-Fixpoint count_values (fuel : nat) (b : bytes) : nat :=
+(* CountValues; None = error (decodeNode then sees a count of 0) *)
+Fixpoint count_values (fuel : nat) (b : bytes) : option nat :=
   match fuel with
-  | O => O
+  | O => Some O
   | S f =>
     match b with
-    | [] => O
+    | [] => Some O
     | _ => match read_kind b with
-           | None => 1000      (* error: any count other than 2 / 17 *)
+           | None => None
            | Some (_, ts, cs) =>
              match count_values f (skipn (N.to_nat (ts + cs)) b) with
-             | c => if (1000 <=? c)%nat then 1000%nat else S c
+             | Some c => Some (S c)
+             | None => None
              end
            end
     end
@@ -353,7 +354,7 @@ Fixpoint decode_node (fuel : nat) (buf : bytes) : dres :=
       match split_list buf with
       | None => DErr
       | Some (elems, _) =>
-        let c := count_values (S (length elems)) elems in
+        let c := match count_values (S (length elems)) elems with Some c => c | None => O end in
         if Nat.eqb c 2 then
           (* decodeShort *)
           match split_string elems with
@@ -697,8 +698,48 @@ Fixpoint derive_trie (i : N) (items : list bytes) (t : node) : node :=
 Definition derive_sha (H : bytes -> bytes) (items : list bytes) : bytes :=
   root_hash H (derive_trie 0 items Empty).
 
+(* ---- histories and the reference map ------------------------------------- *)
+
+Inductive kvop := KUpdate (k v : bytes) | KDelete (k : bytes).
+
+Definition apply_op (t : node) (o : kvop) : node :=
+  match o with
+  | KUpdate k v => t_update t k v
+  | KDelete k => t_delete t k
+  end.
+
+(* the trie after a history, starting from the empty trie *)
+Definition run (ops : list kvop) : node := fold_left apply_op ops Empty.
+
+(* the reference: a finite map as a function; an update with an empty value removes the key *)
+Definition fmap := bytes -> option bytes.
+Definition m_apply (m : fmap) (o : kvop) : fmap :=
+  fun k' =>
+    match o with
+    | KUpdate k v => if list_eqb k k' then (match v with [] => None | _ => Some v end) else m k'
+    | KDelete k => if list_eqb k k' then None else m k'
+    end.
+Definition m_run (ops : list kvop) : fmap := fold_left m_apply ops (fun _ => None).
+
 (* ---- correspondence runner ---------------------------------------------- *)
 From VF.Lib Require Import Keccak.
+From Coq Require Import Uint63 ZArith.
+
+(* byte strings are written by the harness as 7-byte big-endian machine words
+   (primitive integers parse fast): [B len words] *)
+Fixpoint word_bytes (k : nat) (w : int) : bytes :=
+  match k with
+  | O => []
+  | S k' => Z.to_N (Uint63.to_Z (Uint63.land (Uint63.lsr w (Uint63.of_Z (8 * Z.of_nat k'))) 255%uint63)) :: word_bytes k' w
+  end.
+
+Fixpoint unpack (n : nat) (ws : list int) : bytes :=
+  match ws with
+  | [] => []
+  | w :: r => if (n <=? 7)%nat then word_bytes n w else word_bytes 7 w ++ unpack (n - 7) r
+  end.
+
+Definition B (n : int) (ws : list int) : bytes := unpack (Z.to_nat (Uint63.to_Z n)) ws.
 
 Fixpoint node_eqb (a b : node) : bool :=
   match a, b with
